@@ -15,6 +15,7 @@ from .c02_sym import (
     BoundBuiltin,
     ClassVal,
     Closure,
+    DDict,
     Effect,
     Explorer,
     ExtObj,
@@ -132,7 +133,7 @@ class Interp(_Interp):
                 todo.extend(child_nodes(x))
             return out
         root = dotted.split(".")[0]
-        if root in PURE_LIBS and dotted not in ("functools.partial", "functools.reduce", "itertools.chain", "itertools.chain.from_iterable", "itertools.accumulate", "itertools.pairwise") or (root in PURE_LIBS and all(is_native(a) for a in args) and not kwargs and dotted.startswith("itertools.")):
+        if root in PURE_LIBS and dotted not in ("functools.partial", "functools.reduce", "itertools.chain", "itertools.chain.from_iterable", "itertools.accumulate", "itertools.pairwise", "operator.itemgetter", "operator.attrgetter", "operator.methodcaller") or (root in PURE_LIBS and all(is_native(a) for a in args) and not kwargs and dotted.startswith("itertools.")):
             if all(is_native(a) or type(a).__module__ in PURE_LIBS for a in [*args, *kwargs.values()]) and not any(isinstance(a, (list, dict, set)) for a in args):
                 import importlib
 
@@ -214,8 +215,65 @@ class Interp(_Interp):
                 return args[1]
         if dotted == "dataclasses.field":
             raise Unsupported("dataclasses.field outside a class body", node, fi)
-        if dotted == "operator.itemgetter" or dotted == "operator.attrgetter":
-            raise Unsupported(dotted, node, fi)
+        if dotted in ("operator.itemgetter", "operator.attrgetter", "operator.methodcaller"):
+            return Partial(ExtRef(f"operator.__{name}__"), ((tuple(args), tuple(sorted(kwargs.items()))),), {})
+        if dotted in ("operator.__itemgetter__", "operator.__attrgetter__", "operator.__methodcaller__"):
+            (keys, kw), obj = args[0], args[1]
+            if name == "__methodcaller__":
+                return self.call(self.getattr_value(obj, keys[0], None, frame), list(keys[1:]), dict(kw), node, frame)
+            if name == "__itemgetter__":
+                vals = [self.subscript(obj, k, node, frame) for k in keys]
+            else:
+                vals = []
+                for k in keys:
+                    v = obj
+                    for part in k.split("."):
+                        v = self.getattr_value(v, part, None, frame)
+                    vals.append(v)
+            return vals[0] if len(vals) == 1 else tuple(vals)
+        if dotted in ("operator.getitem", "operator.contains", "operator.eq", "operator.ne", "operator.not_", "operator.truth", "operator.is_", "operator.is_not", "operator.add", "operator.concat") and not all(is_native(a) for a in args):
+            if name == "getitem":
+                return self.subscript(args[0], args[1], node, frame)
+            if name == "contains":
+                return self.contains(args[0], args[1])
+            if name in ("eq", "ne"):
+                return self.equal(args[0], args[1]) == (name == "eq")
+            if name in ("not_", "truth"):
+                return self.truth(args[0]) == (name == "truth")
+            if name in ("is_", "is_not"):
+                return self.compare(ast.Is() if name == "is_" else ast.IsNot(), args[0], args[1])
+            return self.binop(ast.Add(), args[0], args[1], node, frame)
+        if dotted in ("contextlib.suppress",):
+            return ("__suppress__", tuple(args))
+        if dotted in ("contextlib.nullcontext",):
+            return ("__nullcontext__", args[0] if args else None)
+        if dotted in ("collections.defaultdict",):
+            d = DDict()
+            d.factory = args[0] if args else None
+            if len(args) > 1:
+                d.update(self.call_pytype(dict, [args[1]], {}, node, frame))
+            d.update(kwargs)
+            return d
+        if dotted in ("collections.OrderedDict",):
+            return self.call_pytype(dict, args, kwargs, node, frame)
+        if dotted in ("collections.namedtuple", "typing.NamedTuple") and args and isinstance(args[0], str):
+            return self.functional_namedtuple(dotted, args, kwargs, node, frame)
+        if dotted in ("dataclasses.replace", "dataclasses.astuple", "dataclasses.asdict", "copy.replace") and args and isinstance(args[0], Inst):
+            rec = args[0]
+            names = self.record_fields(rec.ci)
+            if names is None:
+                raise Raised(None, "TypeError")
+            if name == "replace":
+                if any(k not in names for k in kwargs):
+                    raise Raised(None, "TypeError")
+                return Inst(rec.ci, {**rec.fields, **kwargs}, rec.args, rec.site)
+            if name == "astuple":
+                return tuple(rec.fields[n] for n in names)
+            return {n: rec.fields[n] for n in names}
+        if dotted.startswith("itertools.") and name in ("starmap", "islice", "zip_longest", "filterfalse", "repeat", "product", "permutations", "combinations", "combinations_with_replacement", "batched", "tee", "takewhile", "dropwhile"):
+            r = self.itertools_model(name, args, kwargs, node, frame)
+            if r is not NotImplemented:
+                return r
         if dotted in ("copy.copy", "copy.deepcopy") and args:
             if is_native(args[0]):
                 import copy
@@ -231,6 +289,110 @@ class Interp(_Interp):
         if any(isinstance(a, (ExtObj, ExtView, list, dict, set, Inst, ANode, Seq, FuncVal, Closure, Partial)) for a in [*args, *kwargs.values()]):
             raise Unsupported(f"library call {dotted} on values the executor tracks (no model of its effect)", node, fi)
         return App(f"ext:{dotted}", tuple(_h(a) for a in args) + tuple((k, _h(v)) for k, v in sorted(kwargs.items())))
+
+    def itertools_model(self, name: str, args: list, kwargs: dict, node, frame) -> Any:
+        """itertools functions that only re-arrange the elements of their (known) arguments are run on lists of abstract values; the ones
+        that call a function call it through the executor."""
+        import itertools
+
+        fi = frame.fi if frame else None
+        if name in ("starmap", "filterfalse", "takewhile", "dropwhile"):
+            kind, items = self.iterate(args[1], node, frame)
+            if kind != "concrete":
+                return App(name, (_h(args[0]), items))
+            if name == "starmap":
+                out = []
+                for x in items:
+                    k2, xs = self.iterate(x, node, frame)
+                    if k2 != "concrete":
+                        raise Unsupported("starmap over argument tuples of unknown length", node, fi)
+                    out.append(self.call(args[0], list(xs), {}, node, frame))
+                return out
+            pred = (lambda x: self.truth(x)) if args[0] is None else (lambda x: self.truth(self.call(args[0], [x], {}, node, frame)))
+            if name == "filterfalse":
+                return [x for x in items if not pred(x)]
+            out = []
+            if name == "takewhile":
+                for x in items:
+                    if not pred(x):
+                        break
+                    out.append(x)
+                return out
+            dropping = True
+            for x in items:
+                if dropping and pred(x):
+                    continue
+                dropping = False
+                out.append(x)
+            return out
+        if name == "islice":
+            kind, items = self.iterate3(args[0], node, frame)
+            bounds = args[1:]
+            if not all(b is None or isinstance(b, int) for b in bounds):
+                return NotImplemented
+            sl = slice(*bounds) if len(bounds) > 1 else slice(bounds[0])
+            if kind == "concrete":
+                return list(items)[sl]
+            return self.subscript(items if kind == "seq" else items, sl, node, frame)
+        if name == "repeat":
+            if len(args) > 1 and isinstance(args[1], int):
+                return [args[0]] * args[1]
+            return NotImplemented
+        if name == "tee":
+            kind, items = self.iterate(args[0], node, frame)
+            if kind != "concrete":
+                return NotImplemented
+            return tuple(list(items) for _ in range(args[1] if len(args) > 1 else 2))
+        its = []
+        for a in args:
+            if isinstance(a, int) and name in ("permutations", "combinations", "combinations_with_replacement", "batched"):
+                its.append(a)
+                continue
+            kind, items = self.iterate(a, node, frame)
+            if kind != "concrete":
+                return NotImplemented
+            its.append(list(items))
+        if not all(isinstance(v, int) or v is None or is_native(v) for v in kwargs.values()) and name != "zip_longest":
+            return NotImplemented
+        try:
+            return [tuple(x) if isinstance(x, tuple) else x for x in getattr(itertools, name)(*its, **kwargs)]
+        except Exception as ex:  # noqa: BLE001
+            raise Raised(None, type(ex).__name__)
+
+    def functional_namedtuple(self, dotted: str, args: list, kwargs: dict, node, frame) -> Any:
+        """collections.namedtuple("N", "a b") / typing.NamedTuple("N", [("a", T), ...]): a synthetic NamedTuple class."""
+        from core.loader import ClassInfo
+
+        tname, spec = args[0], (args[1] if len(args) > 1 else kwargs.get("field_names", kwargs.get("fields", [])))
+        if isinstance(spec, str):
+            fields = spec.replace(",", " ").split()
+        else:
+            kind, items = self.iterate(spec, node, frame)
+            if kind != "concrete":
+                raise Unsupported("NamedTuple with unknown fields", node, frame.fi if frame else None)
+            fields = [x if isinstance(x, str) else x[0] for x in items]
+        if not fields and dotted == "typing.NamedTuple":
+            fields = list(kwargs)
+        if not all(isinstance(f, str) and f.isidentifier() for f in fields):
+            raise Unsupported("NamedTuple with computed field names", node, frame.fi if frame else None)
+        defaults = kwargs.get("defaults") or ()
+        if not is_native(list(defaults)):
+            raise Unsupported("NamedTuple with symbolic defaults", node, frame.fi if frame else None)
+        body = "\n".join(f"    {f}: object" + (f" = {defaults[i - (len(fields) - len(defaults))]!r}" if i >= len(fields) - len(defaults) else "") for i, f in enumerate(fields)) or "    pass"
+        cdef = ast.parse(f"class {tname}(NamedTuple):\n{body}\n").body[0]
+        mod = frame.module if frame is not None else next(iter(self.repo.modules.values()))
+        ci = ClassInfo(tname, cdef, mod, list(cdef.bases), ["typing.NamedTuple"])
+        ci.name = tname
+        for st in cdef.body:
+            if isinstance(st, ast.AnnAssign) and isinstance(st.target, ast.Name):
+                ci.ann_attrs[st.target.id] = st.annotation
+                if st.value is not None:
+                    ci.class_attrs[st.target.id] = st.value
+        # distinct synthetic classes must not share cache entries of the repository's class tables
+        object.__setattr__(ci, "name", f"{tname}")
+        ci.module = mod
+        self.repo._mro_cache[f"{mod.name}.{tname}"] = [ci]
+        return ClassVal(ci)
 
     def call_builtin(self, name: str, args: list, kwargs: dict, node, frame) -> Any:
         fi = frame.fi if frame else None
